@@ -155,6 +155,8 @@ def _anc13(n):
 
 
 def run(ctx: Ctx) -> None:
+    from .c12 import rule_nodekeys
+    rule_nodekeys(ctx)  # remove_identity / unwrap_nodes select nodes through node_dict: the index must follow add / remove / replace
     rule_remove_identity_scope(ctx)
     from ..rules import order as _order
     _order.rule_sequence_source(ctx, [("graphiq/circuit/circuit_dag.py", "CircuitDAG.to_json"), ("graphiq/circuit/circuit_dag.py", "CircuitDAG._slim_seq"), ("graphiq/circuit/circuit_base.py", "CircuitBase.to_openqasm")])
@@ -191,7 +193,19 @@ def _identity_wrappers(src: str) -> str:
     return src.replace(a, extra + a)
 
 
+def _edit_replace_after_store(src: str) -> str:
+    """replace_op stores the new operation first and then removes 'the node's' keys read back from the graph (i.e. the new operation's)"""
+    a = src.index("        # remove entries related to old_operation\n")
+    b = src.index("        # add entries related to new_operation\n")
+    c = src.index('        self.dag.nodes[node]["op"] = new_operation\n', b)
+    removal = ('        current = self.dag.nodes[node]["op"]\n        for label in current.labels:\n            self._node_dict_remove(label, node)\n'
+               '        self._node_dict_remove(type(current).__name__, node)\n        self._node_dict_remove(current.parse_q_reg_types(), node)\n')
+    end = c + len('        self.dag.nodes[node]["op"] = new_operation\n')
+    return src[:a] + src[b:end] + removal + src[end:]
+
+
 KNOCKOUTS = [
+    Knockout("replace-op-unregisters-after-store", "graphiq/circuit/circuit_dag.py", _edit_replace_after_store, "sibling.nodekeys", "replace_op"),
     Knockout("identity-wrapper-magnitudes", DAG, _identity_wrappers, "identity.scope", "any diagonal unitary"),
     Knockout("noise-masked-in-place", CBASE, sub_nth("                            tmp_noise = [op.noise[0], nm.NoNoise]\n                            op.noise = tmp_noise\n", "                            op.noise[1] = nm.NoNoise\n", 0), "effect.stale-swap-read", "in-place store"),
     Knockout("group-merge-reversed", DAG, sub_once("                        gate_list += op.operations\n", "                        gate_list += list(reversed(op.operations))\n"), "order.wrapper", "reversed when merged"),
